@@ -59,8 +59,8 @@ type Ctx struct {
 
 	Evals      int64                 `json:"evals"`
 	Nontrivial int64                 `json:"nontrivial"`
-	Viol       map[string]*Violation `json:"viol"`   // first violation per key
-	ViolCount  map[string]int64      `json:"violn"`  // count per key
+	Viol       map[string]*Violation `json:"viol"`  // first violation per key
+	ViolCount  map[string]int64      `json:"violn"` // count per key
 	Samples    []any                 `json:"samples"`
 	Expired    bool                  `json:"expired"`
 	Groups     map[string]int64      `json:"groups"` // evaluations per named group
